@@ -481,7 +481,7 @@ func (v *VResult) validateInvoke(c *Case, tr *Trace, rt *RT, i int, op Op, out O
 	if out.Class != ClOK && ii.Invoked > 1 {
 		v.add(CInvokedOnce, i, "invoked function ran %d times", ii.Invoked)
 	}
-	if out.Class == ClOK && !zoneSkip && !ii.Zones.SoftDecorated {
+	if out.Class == ClOK && !zoneSkip && !ii.Zones.SoftDecorated && !ii.Zones.OptDecoUnavail {
 		for id := range ii.MustRun {
 			if g := m.Fns[id]; g != nil && g.OkExec < 0 {
 				v.add(CMustRunMissing, i, "Invoke succeeded but %v in its closure has not run", g)
